@@ -218,7 +218,11 @@ pub fn encexec(args: &[String]) {
                 x => x.as_u64().unwrap_or(0) as usize,
             };
             comp.set_compression_level(if fastest { CompressionLevel::Fastest } else { CompressionLevel::Uncompressed });
-            comp.set_source(FragReader { data: input.clone(), pos: 0, frag, calls: 0 });
+            if fr["cont"].as_bool().unwrap_or(false) && fi > 0 && comp.source_mut().is_some() {
+                comp.source_mut().unwrap().data.extend_from_slice(&input);
+            } else {
+                comp.set_source(FragReader { data: input.clone(), pos: 0, frag, calls: 0 });
+            }
             comp.set_drain(Vec::new());
             verif::take();
             verif::set_mask(verif::ENC);
@@ -433,6 +437,8 @@ pub fn encgraph(args: &[String]) {
         struct Fr {
             fastest: bool,
             frag: usize,
+            /// no set_source for this frame: the data is appended to the source that is already installed
+            cont: bool,
             data: Vec<u8>,
             wanted: Vec<Value>,
         }
@@ -440,7 +446,7 @@ pub fn encgraph(args: &[String]) {
         for s in &prog {
             let a = s["args"].as_array().unwrap();
             match s["op"].as_str().unwrap() {
-                "BeginFrame" => frames.push(Fr { fastest: a[0] == "F", frag: match a[1].as_u64().unwrap() { 9 => usize::MAX, k => k as usize }, data: vec![], wanted: vec![] }),
+                "BeginFrame" => frames.push(Fr { fastest: a[0] == "F", frag: match a[1].as_u64().unwrap() { 9 => usize::MAX, 99 => 0, k => k as usize }, cont: a[1].as_u64().unwrap() == 99 && !frames.is_empty(), data: vec![], wanted: vec![] }),
                 "RawBlock" => {
                     let last = a[0].as_bool().unwrap();
                     let len = if last { rng.gen_range(1..5000) } else { BLOCK };
@@ -484,7 +490,12 @@ pub fn encgraph(args: &[String]) {
         for (fi, fr) in frames.iter().enumerate() {
             nframes += 1;
             comp.set_compression_level(if fr.fastest { CompressionLevel::Fastest } else { CompressionLevel::Uncompressed });
-            comp.set_source(FragReader { data: fr.data.clone(), pos: 0, frag: fr.frag, calls: 0 });
+            if fr.cont && comp.source_mut().is_some() {
+                // compress() again on the source that is already there (it has been read to its end): more data arrives
+                comp.source_mut().unwrap().data.extend_from_slice(&fr.data);
+            } else {
+                comp.set_source(FragReader { data: fr.data.clone(), pos: 0, frag: fr.frag, calls: 0 });
+            }
             comp.set_drain(Vec::new());
             verif::take();
             verif::set_mask(verif::ENC);
